@@ -51,7 +51,12 @@ struct W {
 }
 
 fn build_image(ws: &[W], k: usize, cut: usize) -> Vec<u8> {
-    let mut img: Vec<u8> = Vec::new();
+    build_image_on(&[], ws, k, cut)
+}
+
+/// the crash image when the device held `init` before the first write
+fn build_image_on(init: &[u8], ws: &[W], k: usize, cut: usize) -> Vec<u8> {
+    let mut img: Vec<u8> = init.to_vec();
     let put = |img: &mut Vec<u8>, pos: u64, d: &[u8]| {
         let p = pos as usize;
         if p + d.len() > img.len() {
@@ -206,6 +211,61 @@ pub fn run(a: &Args, rep: &mut Reporter) {
             }
             if let Some((sig, d)) = v {
                 rep.violation("C15", &format!("dropped/{}", sig), idx, &format!("writer dropped without finalize after {} of {} items: {}", j, scene.items.len(), d));
+            }
+        }
+        // ---------- a device that was used before: it still holds an older complete file (this program's). Either the
+        // writer refuses such a device, or every crash image of the new write obeys the same rule - in particular the
+        // old file must not stay acceptable while the new one is incomplete
+        {
+            let scene_b = small_scene(&mut r, &mut cover);
+            let devb = Dev::new(complete.clone());
+            devb.set_record(true, true);
+            let runb = run_scene(&scene_b, devb.clone(), Judge::Conforming);
+            if !runb.new_ok {
+                rep.stat("used_device_refused", 1);
+                cover.hit("used-device:refused");
+            } else if runb.finalized {
+                let opsb = devb.take_ops();
+                let complete_b = devb.bytes();
+                let fin_b = runb.finalize_call_no.unwrap_or(u32::MAX);
+                let wsb: Vec<W> = opsb.iter().filter(|o| o.kind == OpKind::Write && o.ok && o.data.as_ref().map_or(false, |d| !d.is_empty())).map(|o| W { pos: o.pos, data: o.data.clone().unwrap_or_default(), call: o.api_call }).collect();
+                let extra_b: Vec<Blob> = runb.blobs.iter().map(|(b, _)| b.clone()).collect();
+                cover.hit("used-device:accepted");
+                rep.stat("used_device_accepted", 1);
+                if build_image_on(&complete, &wsb, wsb.len(), 0) == complete_b {
+                    match baseline(&complete_b, &extra_b) {
+                        Some(base_b) => {
+                            let first_fin_b = wsb.iter().position(|w| w.call >= fin_b).unwrap_or(wsb.len());
+                            for k in 0..=wsb.len() {
+                                let mut cuts: Vec<usize> = vec![0];
+                                if k < wsb.len() && wsb[k].data.len() > 2 {
+                                    cuts.push(1 + r.usize(wsb[k].data.len() - 1));
+                                }
+                                for cut in cuts {
+                                    let img = build_image_on(&complete, &wsb, k, cut);
+                                    if k == wsb.len() || img == complete_b {
+                                        continue;
+                                    }
+                                    images += 1;
+                                    let before = k < first_fin_b || (k == first_fin_b && cut == 0);
+                                    let (accepted, v) = judge_image(&img, &base_b, before, &mut r, &complete_b);
+                                    if !accepted {
+                                        rejected += 1;
+                                    }
+                                    if let Some((sig, d)) = v {
+                                        rep.violation("C15", &format!("used-device/{}", sig), idx, &format!("device held an older complete file of {} bytes and the writer accepted it; image = old file + {} complete device writes + {} bytes of write #{}: {}", complete.len(), k, cut, k, d));
+                                    }
+                                }
+                            }
+                        }
+                        None => {
+                            // the writer accepted the used device and reported success, yet the result is no readable file
+                            rep.violation("C15", "used-device/completed-file-unreadable", idx, &format!("device held an older complete file of {} bytes; the writer accepted it and every call up to finalize returned Ok, but the result cannot be read", complete.len()));
+                        }
+                    }
+                } else {
+                    rep.inconclusive(idx, "recorded write sequence on the used device does not reproduce the completed file");
+                }
             }
         }
         rep.stat("images_built", images);
